@@ -50,6 +50,7 @@ func (c05) Gates(tier string, m map[string]int64) []rt.Gate {
 		rt.GateMin("ORDER BY on a field defined through another field's name", m, "order_by_field_defined_through_a_name", 200),
 		rt.GateMin("field names and chunk keys with colliding concatenations", m, "colliding_name_key_concatenations", 200),
 		rt.GateMin("list-valued named fields used by several distance calls", m, "vector_valued_named_field", 200),
+		rt.GateMin("the key under a name in key-pinning tests", m, "key_under_a_name", 200),
 	}
 }
 
@@ -99,6 +100,52 @@ func (k c05) collide(c *rt.Ctx) {
 	}
 }
 
+// namedKey: the key under a name, used by key-pinning tests with the literal on either side
+// (`'abc' ^= k` asks whether the key is a prefix of the literal: it pins nothing).
+func (k c05) namedKey(c *rt.Ctx) {
+	r := c.R
+	st := gen.NewStore(r, []string{gen.FTiny, gen.FTiny, gen.FRel, gen.FTies}[r.Intn(4)])
+	if len(st.Pairs) == 0 {
+		return
+	}
+	lits := st.KeyLiterals(r)
+	lit := func() *gen.Node {
+		if r.Bool() {
+			p := st.Pairs[r.Intn(len(st.Pairs))].K
+			if gen.Printable(p) {
+				return gen.Str(p)
+			}
+		}
+		return gen.Str(lits[r.Intn(len(lits))])
+	}
+	kdef := gen.Key()
+	kref := func() *gen.Node { return gen.Ref("kn", kdef) }
+	var w *gen.Node
+	switch r.Intn(6) {
+	case 0, 1:
+		w = gen.Bin("^=", lit(), kref())
+	case 2:
+		w = gen.Bin("^=", kref(), lit())
+	case 3:
+		w = gen.Bin("=", lit(), kref())
+	case 4:
+		w = gen.Bin(">=", lit(), kref())
+	default:
+		w = gen.In(kref(), lit(), lit())
+	}
+	switch r.Intn(3) {
+	case 0:
+		w = gen.And(w, gen.Bin("!=", gen.Value(), gen.Str("no such value")))
+	case 1:
+		w = gen.Or(w, gen.Bin("=", kref(), lit()))
+	}
+	stmt := &gen.Stmt{Kind: "select", Fields: []gen.Field{{E: gen.Key()}, {E: kdef, Alias: "kn"}, {E: gen.Value()}}, Where: w}
+	c.Rec.Inc("key_under_a_name")
+	if hit := k.judge(c, stmt, st.Pairs, ""); hit != "" {
+		k.judge(c, stmt, st.Pairs, stmt.Text(gen.Plain))
+	}
+}
+
 // vectors: a list-valued field used by name in several distance calls (and in the filter):
 // every use must see the field's own value.
 func (k c05) vectors(c *rt.Ctx) {
@@ -142,6 +189,10 @@ func (k c05) Run(c *rt.Ctx) {
 	}
 	if r.Chance(1, 15) {
 		k.vectors(c)
+		return
+	}
+	if r.Chance(1, 15) {
+		k.namedKey(c)
 		return
 	}
 	st := gen.NewStore(r, c05Families[r.Intn(len(c05Families))])
